@@ -4,11 +4,13 @@
 package main
 
 import (
-	"os"
 	"context"
 	"fmt"
+	"github.com/semihalev/sdns/middleware/cache"
+	"github.com/semihalev/sdns/server"
 	"net"
 	"net/netip"
+	"os"
 	"strings"
 
 	"github.com/miekg/dns"
@@ -98,6 +100,7 @@ func naive(es []ent, a netip.Addr) bool {
 }
 
 type stub struct {
+	ttl   int
 	calls int
 	q     middleware.Queryer
 	pq    middleware.Queryer
@@ -108,6 +111,10 @@ func (s *stub) ServeDNS(ctx context.Context, ch *middleware.Chain) {
 	s.calls++
 	m := new(dns.Msg)
 	m.SetReply(ch.Request.Msg())
+	if s.ttl > 0 {
+		rr, _ := dns.NewRR(fmt.Sprintf("%s %d IN A 192.0.2.77", m.Question[0].Name, s.ttl))
+		m.Answer = []dns.RR{rr}
+	}
 	_ = ch.Writer.WriteMsg(m)
 	ch.Cancel()
 }
@@ -115,16 +122,16 @@ func (s *stub) SetQueryer(q middleware.Queryer)         { s.q = q }
 func (s *stub) SetPrefetchQueryer(q middleware.Queryer) { s.pq = q }
 
 var (
-	curSet   *ipset.Set
-	curEnts  []ent
-	curACL   *accesslist.List
-	aclEnts  []ent
-	curViews  *views.Views
-	viewEnts  [][]ent
-	viewTypes [][]uint16
-	dEnts     []ent
-	dStub     *stub
-	dPipe     *middleware.Pipeline
+	curSet     *ipset.Set
+	curEnts    []ent
+	curACL     *accesslist.List
+	aclEnts    []ent
+	curViews   *views.Views
+	viewEnts   [][]ent
+	viewTypes  [][]uint16
+	dEnts      []ent
+	dStub      *stub
+	dPipe      *middleware.Pipeline
 	dSlabChain *middleware.Chain
 )
 
@@ -160,7 +167,7 @@ func (h *scripted) ServeDNS(ctx context.Context, ch *middleware.Chain) {
 
 type named struct{ n string }
 
-func (h *named) Name() string                                         { return h.n }
+func (h *named) Name() string                                       { return h.n }
 func (h *named) ServeDNS(ctx context.Context, ch *middleware.Chain) { ch.Next(ctx) }
 
 type namedCO struct {
@@ -169,6 +176,47 @@ type namedCO struct {
 }
 
 func (h *namedCO) ClientOnly() bool { return h.co }
+
+func subCacheHit(n int) vlib.Res {
+	reg := middleware.NewRegistry()
+	st := &stub{ttl: 300}
+	var ch *cache.Cache
+	reg.Register("cache", func(c *config.Config) middleware.Handler { ch = cache.New(c); return ch })
+	reg.Register("stub", func(c *config.Config) middleware.Handler { return st })
+	cfg := &config.Config{CacheSize: 4096, Expire: 600, RateLimit: 1}
+	p := reg.Build(cfg)
+	middleware.VerifAutoWire(p)
+	defer func() {
+		if ch != nil {
+			ch.Stop()
+		}
+	}()
+	ext := ""
+	for i := 0; i < 4; i++ {
+		w := mock.NewWriter("udp", "10.1.2.3:4242")
+		c := p.NewChain()
+		c.Reset(w, query())
+		c.Next(context.Background())
+		p.PutChain(c)
+		ext += vlib.B(w.Written())
+	}
+	answered := 0
+	for i := 0; i < n; i++ {
+		resp, err := st.q.Query(context.Background(), query())
+		if err == nil && resp != nil && len(resp.Answer) == 1 {
+			answered++
+		}
+	}
+	or := "ok"
+	if answered != n {
+		or = fmt.Sprintf("FAIL sig=sub/internal-query-hit-client-rate-limit answered=%d of %d ext=%s", answered, n, ext)
+	}
+	if !strings.Contains(ext, "f") {
+		// the scenario needs the external client to have been limited at least once
+		return vlib.Res{Impl: fmt.Sprintf("ext=%s int=%d", ext, answered), Oracle: or, Tags: "limiter-not-exhausted"}
+	}
+	return vlib.Res{Impl: fmt.Sprintf("ext=%s int=%d", ext, answered), Oracle: or, Tags: "nt"}
+}
 
 func contains(l []string, s string) bool {
 	for _, x := range l {
@@ -664,6 +712,35 @@ func exec(op string) vlib.Res {
 		// over recovery → accesslist → edns → stub. hdr: - | xff | xri | fwd — a
 		// forwarding header naming an ALLOWED address, which must not matter.
 		return liveRun(f[2], strings.Split(f[3], ","), f[4])
+	case "ident raw":
+		// ident raw <6:hex32|4:hex8> <port>: the Linux batched reader's sockaddr
+		// decoder, then the current access list: the decision must be taken on the
+		// datagram's own source (only a genuine ::ffff:a.b.c.d counts as IPv4).
+		a := parseAddr(f[2])
+		v6 := strings.HasPrefix(f[2], "6:") || strings.HasPrefix(f[2], "m:")
+		raw := a.AsSlice()
+		if v6 && len(raw) == 4 {
+			raw = net.IP(raw).To16()
+		}
+		ra, ok := server.VerifC17RawPeer(v6, raw, vlib.Atoi(f[3]))
+		if !ok || ra == nil {
+			return vlib.Res{Impl: "undecodable", Oracle: "FAIL sig=ident/raw/sockaddr-not-decoded"}
+		}
+		st := &stub{}
+		ch := middleware.NewChain([]middleware.Handler{curACL, st})
+		ch.Reset(&identT{ra: ra}, query())
+		ch.Next(context.Background())
+		want := naive(aclEnts, a)
+		got := st.calls == 1
+		or := "ok"
+		if got != want {
+			or = fmt.Sprintf("FAIL sig=ident/raw/decision-not-on-the-datagrams-own-source want-next=%v seen=%s", want, ra.String())
+		}
+		return vlib.Res{Impl: "next=" + vlib.B(got), Oracle: or, Tags: "nt"}
+	case "sub cachehit":
+		// sub cachehit <n>: a hot cache entry whose per-entry client rate limit an
+		// external client has just exhausted must still answer internal sub-queries.
+		return subCacheHit(vlib.Atoi(f[2]))
 	case "sub query":
 		// Internal sub-queries bypass every client-only policy: a
 		// pipeline whose access list denies everything (and whose rate
@@ -866,6 +943,7 @@ func genAddr(r *vlib.R, pool []netip.Prefix) string {
 
 func gen(r *vlib.R, n int, tier string, emit func(string)) {
 	emit("sub query 5")
+	emit("sub cachehit 6")
 	// real sockets and the real DoH handler: a few lists that do / do not
 	// contain the loopback source, DoH peers in and out, forwarding headers
 	lives := 4
@@ -915,6 +993,17 @@ func gen(r *vlib.R, n int, tier string, emit func(string)) {
 			for i := 0; i < q; i++ {
 				emit(fmt.Sprintf("acl serve %s %s %s", genAddr(r, pool), vlib.B(r.Chance(1, 6)), vlib.Pick(r, []string{"udp", "tcp", "doh"})))
 			}
+			// the batched UDP reader's own sockaddr decoding: v6 sources that merely
+			// look like a mapped address in their LAST 64 bits are still v6
+			for j := 0; j < 2; j++ {
+				a := genAddr(r, pool)
+				if strings.HasPrefix(a, "4:") && r.Chance(1, 2) {
+					// x:x:x:x:0:ffff:a.b.c.d — interface id 0:ffff:<v4 inside the list>
+					a = "6:" + vlib.Hex(r.Bytes(8)) + "0000ffff" + a[2:]
+				}
+				emit(fmt.Sprintf("ident raw %s %d", a, 1+r.Intn(65535)))
+			}
+			n -= 2
 			n -= q + 1
 		case k == 9 && r.Chance(1, 2):
 			// dispatch, wiring and identity: the glue between the access list
@@ -1041,7 +1130,7 @@ func facts() map[string]any {
 	names := middleware.DefaultRegistry.List()
 	cfg := &config.Config{AccessList: []string{"192.0.2.1/32"}, ClientRateLimit: 1}
 	cfg.ReflexEnabled = true
-		cfg.ReflexBlockMode = true
+	cfg.ReflexBlockMode = true
 	co := func(h middleware.Handler) bool {
 		c, ok := h.(middleware.ClientOnly)
 		return ok && c.ClientOnly()
@@ -1057,8 +1146,8 @@ func facts() map[string]any {
 		cos = append(cos, h != nil && co(h))
 	}
 	return map[string]any{
-		"chain_clientonly":     cos,
-		"chain_order":          names,
+		"chain_clientonly":      cos,
+		"chain_order":           names,
 		"clientonly_accesslist": co(accesslist.New(cfg)),
 		"clientonly_ratelimit":  co(ratelimit.New(cfg)),
 		"clientonly_reflex":     co(reflex.New(cfg)),
